@@ -123,6 +123,9 @@ func (p *Program) genVC(con *Contract, sorts map[string]string) (vc *VC, err err
 		}
 		bindResults(post, ex.results)
 		for i, e := range con.Ensures {
+			if e.Assumed {
+				continue
+			}
 			t, err := post.boolExpr(e.Expr)
 			if err != nil {
 				return vc, fmt.Errorf("%s: ensures: %v", e.Pos, err)
